@@ -111,8 +111,14 @@ def run(ctx):
             problems = []
             nclass = []
             for (desc, node, shrink) in peffs:
-                if shrink and shrink[0] in ("pop", "truncate") and any(re.search(rx, shrink[1]) for rx in allowed):
-                    continue
+                if shrink and shrink[0] in ("pop", "truncate"):
+                    rows_ = [r for r in allowed if re.search(r["vector"], shrink[1])]
+                    if rows_:
+                        at_ = guards(ctx, f).atoms_at(node)
+                        if any(re.search(rows_[0]["noop_guard"], a) for a in at_):
+                            continue
+                        problems.append("%s is no longer confined by the condition that makes it a no-op on strict-accepted input (%s)" % (desc, rows_[0]["why"]))
+                        continue
                 if desc.startswith("assignment to variable"):
                     # class N: canonicalising assignment after a strict refusal, inside a deviation test
                     g_ = guards(ctx, f)
@@ -129,7 +135,7 @@ def run(ctx):
             if problems:
                 res.fail(Finding("R-MODE.P", key + "/permissive-only-code-not-a-listed-normaliser", "code reachable only when is_strict() is false (test at line %d) is not a listed normaliser: %s" % (line, "; ".join(problems[:3])), f, f.blocks[bb]["term"]["span"]))
             else:
-                res.ok({"function": f.path, "mode_test_line": line, "class": ("N (canonicalising assignment inside deviation test '%s')" % nclass[0]) if nclass else ("P (listed normaliser: only shrinks %s)" % ", ".join(allowed))}, nontrivial=True)
+                res.ok({"function": f.path, "mode_test_line": line, "class": ("N (canonicalising assignment inside deviation test '%s')" % nclass[0]) if nclass else ("P (listed normaliser: only shrinks %s under its no-op guard)" % ", ".join(r["vector"] for r in allowed))}, nontrivial=True)
     res.floor("is_strict call sites", n_sites, ctx.table("floors").get("mode_sites", 0))
     # deviation inventory
     located = 0
